@@ -108,6 +108,18 @@ def job(args):
                     got = np.asarray(m.ode_and_sensitivityIV(arr, t), float)
                     gotJ = np.asarray(m.ode_and_sensitivityIV_jacobian(arr, t), float)
                     got_again = np.asarray(m.ode_and_sensitivityIV(arr, t), float)
+                # the time-first wrappers (the form scipy's ode / solve_ivp call) are the same functions of the same point
+                if fn == "ode_and_sensitivity":
+                    gotT = np.asarray(m.ode_and_sensitivity_T(t, sp_vec.copy(), by_state), float)
+                    gotJT = np.asarray(m.ode_and_sensitivity_jacobian_T(t, sp_vec.copy(), by_state), float)
+                else:
+                    gotT = np.asarray(m.ode_and_sensitivityIV_T(t, sp_vec.copy()), float)
+                    gotJT = np.asarray(m.ode_and_sensitivityIV_jacobian_T(t, sp_vec.copy()), float)
+                out["checks"] += 2
+                if gotT.shape != got.shape or not np.array_equal(gotT, got) or gotJT.shape != gotJ.shape or not np.array_equal(gotJT, gotJ):
+                    out["viol"].append({"what": "time-first-wrapper-differs", "which": fn + "_T", "by_state": by_state,
+                                        "detail": {"shape": [ns, npar], "point": [x, t, th], "rhs_T": gotT.tolist(), "rhs": got.tolist()}})
+                    break
                 if not np.array_equal(arr, sp_vec) or not np.array_equal(got, got_again):
                     out["viol"].append({"what": "caller-vector-modified", "which": fn, "by_state": by_state,
                                         "detail": {"shape": [ns, npar], "point": [x, t, th], "before": sp_vec.tolist(), "after": arr.tolist()}})
